@@ -474,8 +474,97 @@ def r4(ctx):
     ctx.floor("C08.R4", 9)
 
 
+def r5(ctx):
+    """the plain iterator over a range of the records table (RecordsRange::next - behind get_range, the range fingerprint, the
+    range count and the content-hash listing) evaluated call after call over scripted rows: every row of the scan is yielded, in
+    scan order, deletion markers included (they are entries of the ordered map like any other: a marker that is not
+    fingerprinted or sent never reaches the peer), a failing row is an error, the end comes after the last row"""
+    from . import feval as E, coll
+    f = ctx.facts
+    cands = [p for p in f.bodies if re.match(r"^<store::fs::ranges::RecordsRange<.*> as std::iter::Iterator>::next$", p)]
+    if len(cands) != 1:
+        raise mir.AnchorMissing("expected one Iterator::next of RecordsRange, found %s" % cands)
+    NEXT = cands[0]
+    b = f.body(NEXT)
+    ctx.touch(b)
+    for label, rows in (("live,marker,live", ["live", "marker", "live"]), ("marker-first", ["marker", "live"]), ("failing-row", ["live", "fail", "live"]), ("empty", [])):
+        pos = [0]
+        C = coll.Collections(f)
+
+        def oracle(kind, name, payload, site, rows=rows):
+            if kind in ("eq", "cmp"):
+                a, b2 = str(name), str(payload)
+                if "EMPTY" in a or "EMPTY" in b2:
+                    return ("EMPTY" in a and "EMPTY" in b2) if kind == "eq" else None
+                return None
+            if kind != "call":
+                return None
+            t, args, it = payload
+            names = [it.tokname(a).strip("&*") for a in args]
+            if name in ("next", "next_back") and names and names[0] == "redb-range":
+                i = pos[0]
+                pos[0] += 1
+                if i >= len(rows):
+                    return E.NONE
+                if rows[i] == "fail":
+                    return E.Some(E.Err(E.Tok("storage-error")))
+                return E.Some(E.Ok(("tuple", [E.Tok("kguard%d" % i), E.Tok("vguard%d" % i)])))
+            if name == "value" and names and names[0].startswith("kguard"):
+                i = names[0][6:]
+                return ("tuple", [E.Tok("ns"), E.Tok("author%s" % i), E.Tok("key%s" % i)])
+            if name == "value" and names and names[0].startswith("vguard"):
+                i = int(names[0][6:])
+                mk = rows[i] == "marker"
+                return ("tuple", [E.Tok("ts%d" % i), E.Tok("nsig"), E.Tok("asig"), E.Int(0 if mk else 7), E.Tok("EMPTY" if mk else "hash%d" % i)])
+            if mir.callee_matches(t, r"store::fs::into_entry$"):
+                return E.Tok("entry(%s)" % names[0].split(",")[-1].rstrip(")")[3:] if False else "entry(%s)" % it.tokname(it.resolve(args[0])[1][2]).strip("&*")[3:])
+            if name == "as_bytes" and names and "EMPTY" in names[0]:
+                return E.Tok("EMPTY")
+            return C.handle(kind, name, payload, site)
+        heap = {"self": E.struct(f, "store::fs::ranges::RecordsRange", **{"0": E.Tok("redb-range")})}
+        out = []
+        try:
+            for _ in range(len(rows) + 2):
+                ret, itp = E.run_it(f, NEXT, [E.href("self")], heap, oracle)
+                heap = itp.heap
+                rv = itp.resolve(ret)
+                d = E.describe(rv, f)
+                try:
+                    # name the entry by the row it was made from (its timestamp column)
+                    if rv[0] == "adt" and rv[1] == E.OPTION and rv[2] == 1:
+                        inner = itp.resolve(rv[3][0])
+                        if inner[0] == "adt" and inner[1] == E.RESULT and inner[2] == 0:
+                            se = itp.resolve(inner[3][0])
+                            if se[0] == "adt":
+                                en = itp.resolve(E.field(f, se, "sync::SignedEntry", "entry"))
+                                rec = itp.resolve(E.field(f, en, "sync::Entry", "record"))
+                                ts = itp.tokname(E.field(f, rec, "sync::Record", "timestamp"))
+                                d = "Some(Ok(entry(%s)))" % ts.strip("&*")[2:]
+                            elif se[0] == "tok":
+                                d = "Some(Ok(%s))" % se[1]
+                except Exception:
+                    pass
+                out.append(d)
+                if d == "None" or d.startswith("Some(Err"):
+                    break
+        except E.Unsupported as e:
+            out.append("UNSUPPORTED-FORM: %s" % e)
+        want = []
+        for i, r in enumerate(rows):
+            if r == "fail":
+                want.append("Some(Err(")
+                break
+            want.append("Some(Ok(entry(%d)))" % i)
+        else:
+            want.append("None")
+        ok = len(out) == len(want) and all(o.startswith(w) for o, w in zip(out, want))
+        ctx.check(ok, "C08.R5", NEXT, "plain-scan-yields-every-row[%s]" % label, "rows %s: yields %s; spec %s" % (rows, out, want), b.sp)
+    ctx.floor("C08.R5", 4)
+
+
 def run(ctx):
     ctx.run_rule("C08.R1", r1)
     ctx.run_rule("C08.R2", r2)
     ctx.run_rule("C08.R3", r3)
     ctx.run_rule("C08.R4", r4)
+    ctx.run_rule("C08.R5", r5)
